@@ -9,6 +9,7 @@ import (
 	"encoding/json"
 	"fmt"
 	"os"
+	"path/filepath"
 	"runtime"
 	"sort"
 	"strconv"
@@ -126,6 +127,9 @@ type Reporter struct {
 	ReplayOf string
 }
 
+// NoEvidence: VERIF_NO_EVIDENCE=1 (set by bin/mutant) keeps a run from touching evidence/ and replays/.
+func NoEvidence() bool { return os.Getenv("VERIF_NO_EVIDENCE") != "" }
+
 func NewReporter(prop string) *Reporter {
 	r := &Reporter{Prop: prop, sigs: map[string]*sigInfo{}}
 	f, err := evlib.LoadFindings()
@@ -170,12 +174,39 @@ func (r *Reporter) Violation(sig, what string, replay func() interface{}) {
 	}
 	if r.ReplayOf != "" {
 		s.Replay = r.ReplayOf
+	} else if NoEvidence() {
+		// mutant / candidate-fix runs: keep /verif/replays for runs on the real tree
+		dir := filepath.Join(evlib.Root(), "build", "scratch-replays")
+		_ = os.MkdirAll(dir, 0o755)
+		s.Replay = filepath.Join(dir, fmt.Sprintf("%s-%d.json", r.Prop, r.nReplay))
+		raw, _ := json.MarshalIndent(payload, "", " ")
+		if err := os.WriteFile(s.Replay, append(raw, '\n'), 0o644); err != nil {
+			r.Broken = fmt.Errorf("cannot write replay: %w", err)
+		}
 	} else {
 		p, err := evlib.WriteReplay(r.Prop, r.nReplay, payload)
 		if err != nil {
 			r.Broken = fmt.Errorf("cannot write replay: %w", err)
 		}
 		s.Replay = p
+	}
+	r.sigs[sig] = s
+	r.order = append(r.order, sig)
+}
+
+// ViolationAt records a violation found by another engine whose replay file already exists
+// (same known-findings lookup, same VIOLATION / KNOWN-FINDING lines).
+func (r *Reporter) ViolationAt(sig, what, replayPath string) {
+	r.mu.Lock()
+	defer r.mu.Unlock()
+	if s, ok := r.sigs[sig]; ok {
+		s.Count++
+		return
+	}
+	s := &sigInfo{Sig: sig, What: what, Count: 1, Replay: replayPath}
+	if kf, ok := r.findings.Known(r.Prop, sig); ok {
+		s.Known = true
+		s.KnownW = kf.What
 	}
 	r.sigs[sig] = s
 	r.order = append(r.order, sig)
@@ -354,8 +385,10 @@ func Finish(r *Reporter, tier string, start time.Time, cov evlib.Coverage, assum
 		WallS:       time.Since(start).Seconds(),
 		Violations:  r.Unknown(),
 	}
-	if err := evlib.Write(ev); err != nil {
-		r.Machinery(fmt.Errorf("cannot write evidence: %w", err))
+	if !NoEvidence() {
+		if err := evlib.Write(ev); err != nil {
+			r.Machinery(fmt.Errorf("cannot write evidence: %w", err))
+		}
 	}
 	code := r.Print()
 	fmt.Printf("%s tier=%s evaluations=%d distinct_nontrivial=%d exhaustive=%v wall=%.1fs exit=%d\n",
